@@ -11,3 +11,19 @@ func SplitGapSelfTest() {
 	z = verifrt.Split(z)
 	verifrt.Assert(z != 2, "H.unreachable")
 }
+
+// FrozenWriteSelfTest is the positive control of the C11 detector: after the
+// schema is frozen, the harness itself writes into a schema definition. The
+// engine must report a frozen write and the native snapshot comparison must fail.
+func FrozenWriteSelfTest() {
+	schema := LoadTestSchema(1)
+	before := ""
+	if verifrt.Native() {
+		before = dumpSchema(schema)
+	}
+	verifrt.Freeze()
+	schema.Types["Obj"].Description = "written after freeze"
+	if verifrt.Native() {
+		verifrt.Assert(dumpSchema(schema) == before, "C11.schema-unchanged")
+	}
+}
